@@ -320,6 +320,18 @@ class Micro(object):
                         size, what = n['ch'][1], 'advance of %s' % cur.get('n')
                     elif n.is_call() and q(n) == 'UMInitializeWithExistingData' and len(n.args()) >= 3 and any(x['k'] == 'DeclRefExpr' and x.get('d') == cd for x in n.args()[1].walk()):
                         size, what = n.args()[2], 'sub-Message size at %s' % cur.get('n')
+                    elif n['k'] == 'BinaryOperator' and n.get('op') == '=' and A.strip_casts(n['ch'][0])['k'] == 'UnaryOperator' and A.strip_casts(n['ch'][0]).get('op') == '*' \
+                            and A.strip_casts(A.strip_casts(n['ch'][0])['ch'][0]).get('d') in set(p_.get('d') for p_ in f.params) and not A.strip_casts(n['ch'][1]).type().rstrip().endswith('*'):
+                        # a length handed to the caller through an out-parameter, next to the pointer to the item: it must describe bytes that lie inside the field
+                        rhs = n['ch'][1]
+                        reads_cur = any(x.is_call() and q(x) == 'UMReadInt32' and x.args() and any(y['k'] == 'DeclRefExpr' and y.get('d') == cd for y in x.args()[0].walk()) for x in rhs.walk())
+                        for x in rhs.walk():
+                            if x['k'] == 'DeclRefExpr' and 'd' in x:
+                                for (dn, r0) in self.defs_of(f, x['d']):
+                                    if r0 is not None and any(y.is_call() and q(y) == 'UMReadInt32' and y.args() and any(z['k'] == 'DeclRefExpr' and z.get('d') == cd for z in y.args()[0].walk()) for y in r0.walk()):
+                                        reads_cur = True
+                        if reads_cur:
+                            size, what = rhs, 'item length handed out through *%s' % A.strip_casts(A.strip_casts(n['ch'][0])['ch'][0]).get('n')
                     if size is None or 'v' in A.strip_casts(size):
                         continue
                     n_ob += 1
@@ -354,9 +366,10 @@ class Micro(object):
                         if covers and ((op in ('>', '>=') and not truth) or (op in ('<', '<=') and truth)):
                             ok, how = True, '%s is %s' % (g.text(70), truth)
                     res.ob(rule, f.where(n), '%s: %s by `%s` is bounded by the bytes left in the field' % (f.q, what, size.text(40)), ok, how=how, function=f.q,
-                           key='%s|%s|%s:%s' % (rule, f.q, 'advance' if 'advance' in what else 'handout', cur.get('n')),
+                           key='%s|%s|%s:%s' % (rule, f.q, 'advance' if 'advance' in what else 'outlen' if 'handed out through' in what else 'handout', cur.get('n')),
                            message='%s: %s uses the wire-declared `%s` without a dominating comparison against (%s - %s): the %s extends past the end of the field (and of the supplied buffer)'
-                                   % (f.q, what, size.text(40), ends[0].get('n'), cur.get('n'), 'cursor' if 'advance' in what else 'sub-Message handed to the caller'))
+                                   % (f.q, what, size.text(40), ends[0].get('n'), cur.get('n'), 'cursor' if 'advance' in what else 'item (pointer, length) handed to the caller' if 'handed out through' in what
+                                      else 'sub-Message handed to the caller'))
                 # (2) the first read through the cursor
                 reads = [x for x in f.walk() if x.is_call() and q(x) == 'UMReadInt32' and x.args() and any(y['k'] == 'DeclRefExpr' and y.get('d') == cd for y in x.args()[0].walk())]
                 if reads:
